@@ -54,8 +54,8 @@ CHECKS = {
    technique="bounded exhaustive enumeration: every E-sql query accepted by privacy-unit rewriting x every database x every unit, rewritten relation executed on in-process SQLite on D and on D restricted to the unit",
    text="Every E-sql query (quick: every fourth) is rewritten by the real rewrite_as_privacy_unit_preserving under both strategies; for every database instance D and every unit u the rows of the rewritten relation on D attributed to u must equal, as a multiset, its rows on D with all protected rows not owned by u deleted; every row carries non-null unit id and weight.",
    note="Trusted: SQLite + shim; ownership of rows follows the declared privacy-unit paths (dangling foreign keys own nothing). Quick uses the compact world (2-value domains)."),
- "C09": dict(level="translation_validation", design="2/C09",
-   technique="translation validation over exhaustively enumerated (DP query x parameter grid x database) with the random source scripted to zero noise: DP relation vs original query on in-process SQLite",
+ "C09": dict(level="exploration", design="2/C09",
+   technique="bounded exhaustive exploration: (DP query x parameter grid x database) enumerated (DP query x parameter grid x database) with the random source scripted to zero noise: DP relation vs original query on in-process SQLite",
    text="With RANDOM() scripted so that every Gaussian draw is 0, for every DP query x every database instance inside the declared ranges whose per-unit multiplicity fits the clipping bound and whose groups survive (public keys, or thresholds disabled by the parameters), the DP relation and the original query return the same groups with the same COUNT/SUM/AVG and variance / stddev within 1e-6.",
    note="Trusted: SQLite + shim, the scripted random source (Box-Muller arguments giving exact 0). Preconditions (in-range, multiplicity, no dangling foreign keys) are checked per database and skipped cases are counted."),
  "C02": dict(level="model_checking", design="2/C02",
